@@ -8,8 +8,11 @@ import verif
 RULE = ("scripted delegate generators: 1-5 passes of 0-6 requests (rendezvous runs, exact event traces) or 0-260 requests "
         "over channels of capacity 1/2/7/100 (buffered runs, as in `sx arp --live`), a failing pass at a random position "
         "(also the first), rescan intervals 5-25 ms; cancellation before the start, after a random number of events / "
-        "received requests, at EVERY event index of some short scripts, or only once the script is used up; "
-        "non-trivial = at least two delegate calls or a cancellation inside a pass; distinct by (script, capacity, cancel point)")
+        "received requests, at EVERY event index of some short scripts, or only once the script is used up; consumers so "
+        "slow that a pass lasts 2.5 x the interval (scripted delegate that honours its context like the generators of "
+        "pkg/scan, and the REAL NewIPRequestGenerator(NewIPGenerator()) over a /28 or /27, three passes); end to end "
+        "`sx arp --live` in a netns (/29, with exclusions; thorough and failing-input search: a /20 with --rate so that a "
+        "pass outlasts the interval and the pipeline buffers); non-trivial = at least two delegate calls or a cancellation inside a pass; distinct by (script, capacity, cancel point)")
 
 TOL_NS = 1000000   # time stamps are compared as inequalities with 1 ms of tolerance
 
@@ -435,6 +438,13 @@ def replay(ctx, path):
         if not ok:
             return 1
         o = ctx.read_jsonl(os.path.join(ctx.work, "one.jsonl"))[0]
+        if o["kind"] == "real":
+            why = real_spec(o)
+            print("replay real generators over %s, interval %.1f ms, consumer %.1f ms/request -> %d requests, %d delegate "
+                  "calls: %s" % (o["real"], o["rescan_us"] / 1000.0, o["consume_us"] / 1000.0, len(o["out_ips"]), o["calls"],
+                                 why[1] if why else "property holds on this run"))
+            bad += 1 if why else 0
+            continue
         why = spec_on_impl(o)
         print("replay script=%s cap=%d cancel_after=%s -> outs=%s calls=%d closed=%s: %s" % (
             [("fail" if p["fail"] else p["reqs"]) for p in o["script"]], o["cap"], o["cancel_after"], o["outs"][:30],
